@@ -79,7 +79,9 @@ def cases(draw):
         scheds = [[[[draw(st.sampled_from(['guess', 'before_pop', 'after_pop'])), draw(st.integers(1, 12))], 'q']], draw(schedule()), draw(schedule(2))]
     else:
         scheds = [draw(schedule()) for _ in range(3)]
-    return {'model': m, 'schedules': scheds}
+    # the status report's clock: real, or owned by the harness so that minutes / hours / days of guessing time are reported
+    clock = draw(st.sampled_from([None, None, 0.0, 45.0, 3700.0, 100000.0]))
+    return {'model': m, 'schedules': scheds, 'clock_step': clock}
 
 
 def prop(case, rec):
@@ -107,6 +109,8 @@ def prop(case, rec):
         cls.append('explicit_quit')
     if sm.get('interleaved_events'):
         cls.append('interleaved_request')
+    if case.get('clock_step') and sm['status_requests']:
+        cls.append('status_with_minutes_hours_days_elapsed')
     nontriv = bool(sm['thread_ended_by_stdin'] or sm['quits_inside_markov'] or sm['events_in_remainder'] or sm.get('interleaved_events'))
     rec.case({'schedules': case['schedules'], 'runs': sm['runs'], 'U': len(u.lines)}, nontriv, cls, key=case)
 
